@@ -1,0 +1,172 @@
+//go:build verif
+
+// Contracts for the gvc verifier (/verif). Comment-only file: it adds no code to the package.
+package tmstate
+
+// ---- ghost state ----
+// timers(0): number of step timers outstanding on the round timer (C12).
+// savedPV*/savedPC*/savedPH*: what the action store recorded last (C02): set by a successful Save*Action.
+//@ ghost timers(ref) mathint
+//@ ghost savedPV(ref) string
+//@ ghost savedPVTarget(ref) string
+//@ ghost savedPVH(ref) mathint
+//@ ghost savedPVR(ref) mathint
+//@ ghost savedPC(ref) string
+//@ ghost savedPCTarget(ref) string
+//@ ghost savedPCH(ref) mathint
+//@ ghost savedPCR(ref) mathint
+//@ ghost savedPHSig(ref) string
+//@ ghost savedPHH(ref) mathint
+//@ ghost savedPHR(ref) mathint
+
+// ---- collaborators (interface contracts) ----
+
+//@ iface RoundTimer.ProposalTimer(rt, ctx, height, round)
+//@   requires timers(0) == 0
+//@   ensures timers(0) == 1 && result0 != nil && result1 != nil
+//@   modifies timers(0)
+//@ iface RoundTimer.PrevoteDelayTimer(rt, ctx, height, round)
+//@   requires timers(0) == 0
+//@   ensures timers(0) == 1 && result0 != nil && result1 != nil
+//@   modifies timers(0)
+//@ iface RoundTimer.PrecommitDelayTimer(rt, ctx, height, round)
+//@   requires timers(0) == 0
+//@   ensures timers(0) == 1 && result0 != nil && result1 != nil
+//@   modifies timers(0)
+//@ iface RoundTimer.CommitWaitTimer(rt, ctx, height, round)
+//@   requires timers(0) == 0
+//@   ensures timers(0) == 1 && result0 != nil && result1 != nil
+//@   modifies timers(0)
+
+// rlc.CancelTimer(): cancels the outstanding step timer.
+//@ func tsi.RoundLifecycle.CancelTimer()
+//@   trusted
+//@   ensures timers(0) == 0
+//@   modifies timers(0)
+
+//@ iface tmstore.ActionStore.SavePrevoteAction(s, ctx, pubKey, vt, sig)
+//@   ensures result == nil ==> savedPV(s) == bytes(sig) && savedPVTarget(s) == vt.BlockHash && savedPVH(s) == vt.Height && savedPVR(s) == vt.Round
+//@   ensures result != nil ==> savedPV(s) == old(savedPV(s)) && savedPVTarget(s) == old(savedPVTarget(s)) && savedPVH(s) == old(savedPVH(s)) && savedPVR(s) == old(savedPVR(s))
+//@   modifies savedPV(s), savedPVTarget(s), savedPVH(s), savedPVR(s)
+//@ iface tmstore.ActionStore.SavePrecommitAction(s, ctx, pubKey, vt, sig)
+//@   ensures result == nil ==> savedPC(s) == bytes(sig) && savedPCTarget(s) == vt.BlockHash && savedPCH(s) == vt.Height && savedPCR(s) == vt.Round
+//@   ensures result != nil ==> savedPC(s) == old(savedPC(s)) && savedPCTarget(s) == old(savedPCTarget(s)) && savedPCH(s) == old(savedPCH(s)) && savedPCR(s) == old(savedPCR(s))
+//@   modifies savedPC(s), savedPCTarget(s), savedPCH(s), savedPCR(s)
+//@ iface tmstore.ActionStore.SaveProposedHeaderAction(s, ctx, ph)
+//@   ensures result == nil ==> savedPHSig(s) == bytes(ph.Signature) && savedPHH(s) == ph.Header.Height && savedPHR(s) == ph.Round
+//@   ensures result != nil ==> savedPHSig(s) == old(savedPHSig(s)) && savedPHH(s) == old(savedPHH(s)) && savedPHR(s) == old(savedPHR(s))
+//@   modifies savedPHSig(s), savedPHH(s), savedPHR(s)
+
+//@ iface tmconsensus.Signer.Prevote(sg, ctx, vt)
+//@   modifies nothing
+//@ iface tmconsensus.Signer.Precommit(sg, ctx, vt)
+//@   modifies nothing
+//@ iface tmconsensus.Signer.PubKey(sg)
+//@   modifies nothing
+//@ iface tmconsensus.Signer.SignProposedHeader(sg, ctx, ph)
+//@   modifies ph.Signature
+//@ iface tmconsensus.HashScheme.Block(hs, h)
+//@   modifies nothing
+
+// ---- C02: a vote or proposal is released on the actions channel only after the action store recorded exactly it ----
+
+//@ chaninv tsi.RoundLifecycle.OutgoingActionsCh(act):
+//@     (act.Prevote.Sig != nil ==> savedPV(m.aStore) == bytes(act.Prevote.Sig) && savedPVTarget(m.aStore) == act.Prevote.TargetHash &&
+//@         savedPVH(m.aStore) == rlc.H && savedPVR(m.aStore) == rlc.R) &&
+//@     (act.Precommit.Sig != nil ==> savedPC(m.aStore) == bytes(act.Precommit.Sig) && savedPCTarget(m.aStore) == act.Precommit.TargetHash &&
+//@         savedPCH(m.aStore) == rlc.H && savedPCR(m.aStore) == rlc.R) &&
+//@     (act.PH.Header.Height != 0 || act.PH.Signature != nil ==> savedPHSig(m.aStore) == bytes(act.PH.Signature) &&
+//@         savedPHH(m.aStore) == act.PH.Header.Height && savedPHR(m.aStore) == act.PH.Round)
+
+// ---- C12: step timer discipline ----
+//@ define timedStep(s) = s == tsi.StepAwaitingProposal || s == tsi.StepPrevoteDelay || s == tsi.StepPrecommitDelay || s == tsi.StepCommitWait
+//@ define TimerInv(rlc) = ((rlc.StepTimer != nil) == (rlc.CancelTimer != nil)) && ((rlc.CancelTimer != nil) == timedStep(rlc.S)) &&
+//@     timers(0) == (rlc.CancelTimer != nil ? 1 : 0)
+
+// Round/height changes (large functions, not yet verified themselves): what their callers rely on.
+//@ func StateMachine.advanceRound
+//@   trusted
+//@   ensures result ==> TimerInv(rlc)
+//@   modifies heap
+//@ func StateMachine.advanceHeight
+//@   trusted
+//@   ensures result ==> TimerInv(rlc)
+//@   modifies heap
+
+//@ func StateMachine.recordPrevote
+//@   property C02 C12 C08
+//@   requires TimerInv(rlc) && rlc.OutgoingActionsCh != nil
+//@   ensures timer-inv-kept: TimerInv(rlc)
+//@   ensures leaves-proposal-wait: result && old(rlc.S) == tsi.StepAwaitingProposal ==> rlc.S == tsi.StepAwaitingPrevotes
+//@   ensures other-steps-kept: old(rlc.S) != tsi.StepAwaitingProposal ==> rlc.S == old(rlc.S)
+//@   modifies heap
+
+//@ func StateMachine.recordPrecommit
+//@   property C02 C12
+//@   requires TimerInv(rlc) && rlc.OutgoingActionsCh != nil
+//@   ensures timer-inv-kept: TimerInv(rlc) && rlc.S == old(rlc.S)
+//@   modifies heap
+
+//@ func StateMachine.recordProposedHeader
+//@   property C02
+//@   requires rlc.OutgoingActionsCh != nil && rlc.VRV != nil
+//@   modifies heap
+
+// ---- C08: strategy requests carry the current round's answer channel; finalize only on a >2/3 block precommit ----
+
+//@ chaninv tsi.ConsensusManager.DecidePrecommitRequests(req): req.Result != nil && req.Result == rlc.PrecommitHashCh
+//@ chaninv tsi.ConsensusManager.ConsiderProposedBlocksRequests(req): req.Result != nil && req.Result == rlc.PrevoteHashCh
+//@ chaninv tsi.ConsensusManager.ChooseProposedBlockRequests(req): req.Result != nil && req.Result == rlc.PrevoteHashCh
+
+//@ define blockQuorum(vs) = vs.MostVotedPrecommitHash != "" && 3 * vs.PrecommitBlockPower[vs.MostVotedPrecommitHash] > 2 * vs.AvailablePower
+//@ define nilQuorum(vs) = vs.MostVotedPrecommitHash == "" && 3 * vs.PrecommitBlockPower[""] > 2 * vs.AvailablePower
+//@ define fullyVotedNoQuorum(vs) = vs.TotalPrecommitPower == vs.AvailablePower &&
+//@     !(3 * vs.PrecommitBlockPower[vs.MostVotedPrecommitHash] > 2 * vs.AvailablePower)
+
+//@ func StateMachine.beginCommit
+//@   property C08 C12
+//@   requires blockQuorum(vrv.VoteSummary)
+//@   requires timers(0) == 0
+//@   ensures commit-wait-armed: rlc.S == tsi.StepCommitWait && TimerInv(rlc)
+//@   modifies heap
+
+//@ func StateMachine.handlePrecommitViewUpdate
+//@   property C08 C12
+//@   requires TimerInv(rlc) && vrv.VoteSummary.AvailablePower > 0
+//@   requires rlc.S == tsi.StepAwaitingPrecommits || rlc.S == tsi.StepPrecommitDelay
+//@   modifies heap
+
+//@ func StateMachine.handlePrevoteViewUpdate
+//@   property C08 C12
+//@   requires TimerInv(rlc) && vrv.VoteSummary.AvailablePower > 0 && rlc.PrecommitHashCh != nil
+//@   requires rlc.S == tsi.StepAwaitingPrevotes || rlc.S == tsi.StepPrevoteDelay
+//@   modifies heap
+
+//@ func StateMachine.handleBlockDataArrival
+//@   property C08
+//@   requires rlc.VRV != nil
+//@   modifies heap
+
+//@ func StateMachine.handleTimerElapsed
+//@   property C08 C12
+//@   requires TimerInv(rlc) && timedStep(rlc.S) && rlc.VRV != nil
+//@   requires rlc.S == tsi.StepAwaitingProposal ==> rlc.PrevoteHashCh != nil
+//@   requires rlc.S == tsi.StepPrevoteDelay ==> rlc.PrecommitHashCh != nil
+//@   ensures timer-inv-kept: result ==> TimerInv(rlc)
+//@   modifies heap
+
+// ---- C07: proposals whose validator sets differ from what this node finalized never reach the strategy ----
+//@ define phMatches(ph, rlc) = bytes(ph.Header.PrevAppStateHash) == rlc.PrevFinAppStateHash &&
+//@     bytes(ph.Header.ValidatorSet.PubKeyHash) == bytes(rlc.CurValSet.PubKeyHash) && bytes(ph.Header.ValidatorSet.VotePowerHash) == bytes(rlc.CurValSet.VotePowerHash) &&
+//@     bytes(ph.Header.NextValidatorSet.PubKeyHash) == bytes(rlc.PrevFinNextValSet.PubKeyHash) &&
+//@     bytes(ph.Header.NextValidatorSet.VotePowerHash) == bytes(rlc.PrevFinNextValSet.VotePowerHash)
+
+//@ func StateMachine.rejectMismatchedProposedHeaders
+//@   property C07 C08
+//@   ensures nil-in-nil-out: in == nil ==> result == nil
+//@   ensures never-more: len(result) <= len(in)
+//@   modifies nothing
+//@   loop 1 invariant bounds: len(out) <= rangeindex + 1 && rangeindex < len(in)
+//@   loop 1 invariant fresh-out: len(out) == 0 || fresh(out)
+// (The element-wise statement "every returned header satisfies phMatches" discharges only with a 60 s solver budget
+//  because of the 25-field struct copies in append; it is not claimed in the quick tier. See DESIGN.md.)
